@@ -207,7 +207,9 @@ def gen_layout(rng):
     L["base1"] = {"dir": place(), "name": gen_name(rng, ".xml", blanks=False)}
     L["base2"] = {"dir": place(), "name": gen_name(rng, ".xml", blanks=False)}
     L["types"] = {"dir": place(), "name": gen_name(rng, ".xml")}
-    L["base3"] = {"dir": "top", "name": gen_name(rng, ".xml", blanks=False)}
+    # the second entry of the top schema's 'extends' list: anywhere (each entry of the list is
+    # relative to the schema that holds the list, not to its neighbour in the list)
+    L["base3"] = {"dir": place() if rng.random() < 0.6 else "top", "name": gen_name(rng, ".xml", blanks=False)}
     L["conf"] = {"dir": "top", "name": gen_name(rng, ".conf")}
     # names that begin or end with a blank: only for the two resources that are named from
     # outside (references inside resources are stripped by the readers)
@@ -236,9 +238,16 @@ def gen_layout(rng):
         L["types2"] = {"dir": L["base1"]["dir"], "name": L["types"]["name"]}
     # 'extends' is a blank-separated list: keep blanks out of those two references (unless they
     # are written percent-encoded)
-    if not L["quoted"] and any(c.isspace() for c in rel(L, "schema", "base1") + rel(L, "base1", "base2")):
+    if not L["quoted"] and any(c.isspace() for c in rel(L, "schema", "base1") + rel(L, "base1", "base2") + rel(L, "schema", "base3")):
         L["base1"]["dir"] = "top"
         L["base2"]["dir"] = "top"
+        L["base3"]["dir"] = "top"
+    # two files of one import graph whose names differ only in '+' versus blank
+    plus_pair = "types2" not in L and rng.random() < 0.2
+    if plus_pair:
+        stem = gen_name(rng, "", blanks=False)
+        L["types"]["name"] = stem + " t.xml"
+        L["types2"] = {"dir": L["types"]["dir"], "name": stem + "+t.xml"}
     seen = set()
     for k in ("schema", "base1", "base2", "base3", "types", "conf", "inc1", "inc2", "inc3", "inc4"):
         key = (L[k]["dir"], L[k]["name"].lower())
@@ -248,7 +257,7 @@ def gen_layout(rng):
         seen.add(key)
     if "types2" in L:
         key = (L["types2"]["dir"], L["types2"]["name"].lower())
-        if key in seen or L["base1"]["dir"] == "top":
+        if key in seen or (L["base1"]["dir"] == "top" and not plus_pair) or (plus_pair and not L["types"]["name"].endswith(" t.xml")):
             del L["types2"]      # the name is taken in that directory
     return L
 
